@@ -4,6 +4,7 @@ use vstd::prelude::*;
 use std::marker::PhantomData;
 use std::ops;
 //@include _prelude.rs
+//@rlimit 40
 
 verus! {
 //@include _panic.rs
@@ -25,13 +26,22 @@ pub mod byteorder {
                 r is Ok ==> (*old(self)).rem().len() >= 1 && r->Ok_0 == (*old(self)).rem()[0]
                     && (*final(self)).rem() == (*old(self)).rem().skip(1) && (*final(self)).consumed() == (*old(self)).consumed() + 1,
                 r is Err ==> is_eof_kind(r->Err_0) && (*old(self)).rem().len() < 1;
+        /// ASSUMED (byteorder): read_u16::<NetworkEndian> is read_exact of two bytes, big-endian.
+        fn read_u16<B>(&mut self) -> (r: Result<u16, std::io::Error>)
+            ensures
+                r is Ok ==> (*old(self)).rem().len() >= 2 && r->Ok_0 == be16((*old(self)).rem()[0], (*old(self)).rem()[1])
+                    && (*final(self)).rem() == (*old(self)).rem().skip(2) && (*final(self)).consumed() == (*old(self)).consumed() + 2,
+                r is Err ==> is_eof_kind(r->Err_0) && (*old(self)).rem().len() < 2;
     }
+    pub struct NetworkEndian;
     impl<R: std::io::Read + ?Sized> ReadBytesExt for R {
         #[verifier::external_body]
         fn read_u8(&mut self) -> (r: Result<u8, std::io::Error>) { unimplemented!() }
+        #[verifier::external_body]
+        fn read_u16<B>(&mut self) -> (r: Result<u16, std::io::Error>) { unimplemented!() }
     }
 }
-use byteorder::ReadBytesExt;
+use byteorder::{ReadBytesExt, NetworkEndian};
 /// ASSUMED (std): {u16,u32,u64}::from_be_bytes is big-endian composition. (The std signature uses an anonymous
 /// const for the array length, which `assume_specification` cannot name; call sites are renamed mechanically.)
 #[verifier::external_body]
@@ -48,6 +58,9 @@ pub open spec fn be64(b: Seq<u8>) -> u64 {
 
 pub mod wire {
     pub use crate::{Decode, Error};
+}
+pub mod varint {
+    pub use crate::{VarInt, BoundsExceeded, payload};
 }
 pub struct FromUtf8Error;
 pub mod fmt { pub struct Error; }
@@ -97,6 +110,8 @@ pub open spec fn decode_matches(p: Parse, r_ok: bool, r_eof: bool, before: Seq<u
 //@              Self::parse(s) is Invalid ==> Self::parse(s + t) is Invalid;
 //@    fn decode
 //@      ret r
+//@      requires
+//@        (*old(reader)).rem().len() <= vx_received()
 //@      ensures
 //@        decode_matches(Self::parse((*old(reader)).rem()), r is Ok, r is Err && r->Err_0.is_eof_spec(), (*old(reader)).rem(), (*final(reader)).rem(), (*old(reader)).consumed(), (*final(reader)).consumed())
 //@end
@@ -122,7 +137,7 @@ pub open spec fn varint_val(s: Seq<u8>) -> u64 {
 
 //@extract crates/radicle-node/src/wire/varint.rs
 //@  item struct VarInt
-//@    derive Default, Copy, Clone, Eq, PartialEq
+//@    derive Default, Copy, Clone, Eq, PartialEq, Debug, Hash
 //@  item struct BoundsExceeded
 //@    derive Debug, Copy, Clone, Eq, PartialEq
 //@  impl VarInt
@@ -155,6 +170,256 @@ pub open spec fn varint_val(s: Seq<u8>) -> u64 {
 //@      head
 //@        proof { assert(forall|b: u8| #[trigger] (b >> 6) < 4) by (bit_vector); }
 //@end
+
+pub open spec fn payload_parse(s: Seq<u8>) -> Parse {
+    match varint_parse(s) {
+        Parse::Complete(n) => if s.len() < n + varint_val(s) { Parse::Incomplete } else { Parse::Complete(n + varint_val(s) as nat) },
+        p => p,
+    }
+}
+
+//@extract crates/radicle-node/src/wire/varint.rs
+//@  mod payload
+//@    wrap
+//@    fn decode
+//@      desugar_try
+//@      body_sub? \(&mut \*reader\)\.take\(\*size\)\.read_to_end\(&mut data\) => vx_take_read_to_end(reader, *size, &mut data)
+//@      head
+//@        proof { std_from_refl::<wire::Error>(); }
+//@      ret res
+//@      requires
+//@        (*old(reader)).rem().len() <= vx_received()
+//@      ensures
+//@        decode_matches(payload_parse((*old(reader)).rem()), res is Ok, res is Err && res->Err_0.is_eof_spec(), (*old(reader)).rem(), (*final(reader)).rem(), (*old(reader)).consumed(), (*final(reader)).consumed())
+//@        res is Ok ==> res->Ok_0@ =~= (*old(reader)).rem().subrange(varint_len((*old(reader)).rem()[0]) as int, varint_len((*old(reader)).rem()[0]) + varint_val((*old(reader)).rem()))
+//@end
+
+pub open spec fn fixed_parse(s: Seq<u8>, n: nat) -> Parse { if s.len() < n { Parse::Incomplete } else { Parse::Complete(n) } }
+
+//@extract crates/radicle-node/src/wire.rs
+//@  impl Decode for u8
+//@    add
+//@      open spec fn parse(s: Seq<u8>) -> Parse { fixed_parse(s, 1) }
+//@      proof fn parse_laws(s: Seq<u8>, t: Seq<u8>) {}
+//@    fn decode
+//@      ret res
+//@      ensures
+//@        res is Ok ==> res->Ok_0 == (*old(reader)).rem()[0]
+//@      body_sub reader\.read_u8\(\)\.map_err\(Error::from\) => reader.read_u8().map_err(|e| -> (o: Error) ensures o == Error::Io(e) { Error::from(e) })
+//@  impl Decode for u16
+//@    add
+//@      open spec fn parse(s: Seq<u8>) -> Parse { fixed_parse(s, 2) }
+//@      proof fn parse_laws(s: Seq<u8>, t: Seq<u8>) {}
+//@    fn decode
+//@      ret res
+//@      ensures
+//@        res is Ok ==> res->Ok_0 == be16((*old(reader)).rem()[0], (*old(reader)).rem()[1])
+//@      body_sub reader\.read_u16::<NetworkEndian>\(\)\.map_err\(Error::from\) => reader.read_u16::<NetworkEndian>().map_err(|e| -> (o: Error) ensures o == Error::Io(e) { Error::from(e) })
+//@  impl <const N: usize> Decode for [u8; N]
+//@    add
+//@      open spec fn parse(s: Seq<u8>) -> Parse { fixed_parse(s, N as nat) }
+//@      proof fn parse_laws(s: Seq<u8>, t: Seq<u8>) {}
+//@    fn decode
+//@      desugar_try
+//@      ret res
+//@      ensures
+//@        res is Ok ==> res->Ok_0@ =~= (*old(reader)).rem().take(N as int)
+//@end
+
+// ---- frames ----------------------------------------------------------------------------------------
+/// opaque stand-in for the gossip message type: its decoder is NOT verified in this unit (see C15 harnesses);
+/// it is only required to satisfy the `Decode` contract (parse + prefix laws).
+pub struct Message;
+pub uninterp spec fn message_parse(s: Seq<u8>) -> Parse;
+impl Decode for Message {
+    open spec fn parse(s: Seq<u8>) -> Parse { message_parse(s) }
+    /// ASSUMED: the gossip message format obeys the prefix laws.
+    #[verifier::external_body]
+    proof fn parse_laws(s: Seq<u8>, t: Seq<u8>) {}
+    /// ASSUMED: Message::decode follows its format (Decode contract); checked separately, bounded, by Kani (C13/C15).
+    #[verifier::external_body]
+    fn decode<R: io::Read + ?Sized>(reader: &mut R) -> Result<Self, Error> { unimplemented!() }
+}
+
+pub open spec fn magic() -> Seq<u8> { seq![0x72u8, 0x61u8, 0x64u8, 1u8] }
+pub open spec fn version_parse(s: Seq<u8>) -> Parse {
+    if s.len() < 4 { Parse::Incomplete } else if s.take(4) =~= magic() { Parse::Complete(4) } else { Parse::Invalid }
+}
+pub open spec fn stream_kind(id: u64) -> u8 { ((id >> 1) & 0b11) as u8 }
+pub open spec fn shift(p: Parse, k: nat) -> Parse { match p { Parse::Complete(n) => Parse::Complete(n + k), q => q } }
+pub open spec fn control_parse(s: Seq<u8>) -> Parse {
+    if s.len() < 1 { Parse::Incomplete } else if s[0] > 2 { Parse::Invalid } else { shift(varint_parse(s.skip(1)), 1) }
+}
+/// From the statement: a frame is version, stream id, then by stream kind a control message or a varint-prefixed
+/// payload; a gossip payload must contain a complete message -- a complete payload whose message is truncated
+/// or invalid makes the FRAME invalid (an error), never incomplete.
+pub open spec fn frame_body_parse<M: Decode>(kind: u8, rest: Seq<u8>) -> Parse {
+    if kind == 0 { control_parse(rest) }
+    else if kind == 1 {
+        match payload_parse(rest) {
+            Parse::Complete(k) => {
+                let vl = varint_len(rest[0]);
+                match M::parse(rest.subrange(vl as int, k as int)) { Parse::Complete(_) => Parse::Complete(k), _ => Parse::Invalid }
+            }
+            p => p,
+        }
+    }
+    else if kind == 2 { payload_parse(rest) }
+    else { Parse::Invalid }
+}
+pub open spec fn frame_parse<M: Decode>(s: Seq<u8>) -> Parse {
+    match version_parse(s) {
+        Parse::Complete(_) => match varint_parse(s.skip(4)) {
+            Parse::Complete(n) => shift(frame_body_parse::<M>(stream_kind(varint_val(s.skip(4))), s.skip(4 + n as int)), 4 + n),
+            p => p,
+        },
+        p => p,
+    }
+}
+
+#[derive(Debug, Clone, PartialEq, Eq)]
+pub enum Link { Outbound, Inbound }
+impl Link { pub fn is_outbound(&self) -> (r: bool) ensures r == (*self == Link::Outbound) { matches!(self, Link::Outbound) } }
+
+//@extract crates/radicle-node/src/wire/frame.rs
+//@  item const PROTOCOL_VERSION_STRING
+//@  item const CONTROL_OPEN
+//@  item const CONTROL_CLOSE
+//@  item const CONTROL_EOF
+//@  item struct Version
+//@  impl Version
+//@    fn number
+//@      ret r
+//@      ensures
+//@        r == self.0[3]
+//@  impl wire::Decode for Version
+//@    add
+//@      open spec fn parse(s: Seq<u8>) -> Parse { version_parse(s) }
+//@      proof fn parse_laws(s: Seq<u8>, t: Seq<u8>) { if s.len() >= 4 { assert((s + t).take(4) =~= s.take(4)); } }
+//@    fn decode
+//@      desugar_try
+//@      ret res
+//@      ensures
+//@        res is Ok ==> res->Ok_0.0@ =~= magic()
+//@  item struct StreamId
+//@  item enum StreamKind
+//@  impl TryFrom<u8> for StreamKind
+//@    fn try_from
+//@      ret r
+//@      ensures
+//@        value == 0 ==> r == Ok::<StreamKind, u8>(StreamKind::Control)
+//@        value == 1 ==> r == Ok::<StreamKind, u8>(StreamKind::Gossip)
+//@        value == 2 ==> r == Ok::<StreamKind, u8>(StreamKind::Git)
+//@        value > 2 ==> r == Err::<StreamKind, u8>(value)
+//@  impl StreamId
+//@    fn kind
+//@      ret r
+//@      ensures
+//@        r == <StreamKind as vstd::std_specs::convert::TryFromSpec<u8>>::try_from_spec(stream_kind(self.0.0))
+//@  impl wire::Decode for StreamId
+//@    add
+//@      open spec fn parse(s: Seq<u8>) -> Parse { varint_parse(s) }
+//@      proof fn parse_laws(s: Seq<u8>, t: Seq<u8>) { VarInt::parse_laws(s, t); }
+//@    fn decode
+//@      desugar_try
+//@      head
+//@        proof { std_from_refl::<wire::Error>(); }
+//@      ret res
+//@      ensures
+//@        res is Ok ==> res->Ok_0.0.0 == varint_val((*old(reader)).rem())
+//@  item struct Frame
+//@  item enum FrameData
+//@  item enum Control
+//@  impl <M> Frame<M>
+//@    fn git
+//@      ret r
+//@      ensures
+//@        r.stream == stream
+//@        r.data == FrameData::<M>::Git(data)
+//@  impl wire::Decode for Control
+//@    add
+//@      open spec fn parse(s: Seq<u8>) -> Parse { control_parse(s) }
+//@      proof fn parse_laws(s: Seq<u8>, t: Seq<u8>) {
+//@          if s.len() >= 1 { assert((s + t)[0] == s[0]); assert((s + t).skip(1) =~= s.skip(1) + t); VarInt::parse_laws(s.skip(1), t); }
+//@      }
+//@    fn decode
+//@      desugar_try
+//@      head
+//@        proof { std_from_refl::<wire::Error>(); }
+//@  impl <M: wire::Decode> wire::Decode for Frame<M>
+//@    add
+//@      open spec fn parse(s: Seq<u8>) -> Parse { frame_parse::<M>(s) }
+//@      proof fn parse_laws(s: Seq<u8>, t: Seq<u8>) { lemma_frame_laws::<M>(s, t); }
+//@    fn decode
+//@      desugar_try
+//@      head
+//@        proof { std_from_refl::<wire::Error>(); std_io_error_from_kind(); lemma_seq_facts(); }
+//@end
+
+impl vstd::std_specs::convert::TryFromSpecImpl<u8> for StreamKind {
+    open spec fn obeys_try_from_spec() -> bool { true }
+    open spec fn try_from_spec(v: u8) -> Result<Self, u8> {
+        if v == 0 { Ok(StreamKind::Control) } else if v == 1 { Ok(StreamKind::Gossip) } else if v == 2 { Ok(StreamKind::Git) } else { Err(v) }
+    }
+}
+
+/// sequence algebra the solver does not find by itself (extensional equalities), stated once with triggers
+pub proof fn lemma_seq_facts()
+    ensures
+        forall|a: Seq<u8>, i: int, j: int| 0 <= i && 0 <= j && i + j <= a.len() ==> #[trigger] a.skip(i).skip(j) == a.skip(i + j),
+        forall|a: Seq<u8>| #[trigger] a.skip(0) == a,
+        forall|a: Seq<u8>, i: int, j: int, k: int| 0 <= i && 0 <= j <= k && i + k <= a.len() ==> #[trigger] a.skip(i).subrange(j, k) == a.subrange(i + j, i + k),
+{
+    assert forall|a: Seq<u8>, i: int, j: int| 0 <= i && 0 <= j && i + j <= a.len() implies #[trigger] a.skip(i).skip(j) == a.skip(i + j) by {
+        assert(a.skip(i).skip(j) =~= a.skip(i + j));
+    }
+    assert forall|a: Seq<u8>| #[trigger] a.skip(0) == a by { assert(a.skip(0) =~= a); }
+    assert forall|a: Seq<u8>, i: int, j: int, k: int| 0 <= i && 0 <= j <= k && i + k <= a.len() implies #[trigger] a.skip(i).subrange(j, k) == a.subrange(i + j, i + k) by {
+        assert(a.skip(i).subrange(j, k) =~= a.subrange(i + j, i + k));
+    }
+}
+
+pub proof fn lemma_payload_laws(s: Seq<u8>, t: Seq<u8>)
+    ensures
+        payload_parse(s) matches Parse::Complete(n) ==> n <= s.len() && payload_parse(s + t) == payload_parse(s),
+        payload_parse(s) is Invalid ==> payload_parse(s + t) is Invalid,
+{
+    VarInt::parse_laws(s, t);
+    if let Parse::Complete(n) = varint_parse(s) {
+        assert(varint_val(s + t) == varint_val(s)) by {
+            assert forall|i: int| 0 <= i < n implies (s + t)[i] == s[i] by {}
+        }
+    }
+}
+
+pub proof fn lemma_frame_laws<M: Decode>(s: Seq<u8>, t: Seq<u8>)
+    ensures
+        frame_parse::<M>(s) matches Parse::Complete(n) ==> n <= s.len() && frame_parse::<M>(s + t) == frame_parse::<M>(s),
+        frame_parse::<M>(s) is Invalid ==> frame_parse::<M>(s + t) is Invalid,
+{
+    if s.len() >= 4 {
+        assert((s + t).take(4) =~= s.take(4));
+        assert((s + t).skip(4) =~= s.skip(4) + t);
+        VarInt::parse_laws(s.skip(4), t);
+        if let Parse::Complete(n) = varint_parse(s.skip(4)) {
+            assert(varint_val(s.skip(4) + t) == varint_val(s.skip(4))) by {
+                assert forall|i: int| 0 <= i < n implies (s.skip(4) + t)[i] == s.skip(4)[i] by {}
+            }
+            let rest = s.skip(4 + n as int);
+            assert((s + t).skip(4 + n as int) =~= rest + t);
+            let kind = stream_kind(varint_val(s.skip(4)));
+            lemma_payload_laws(rest, t);
+            Control::parse_laws(rest, t);
+            if kind == 1 {
+                if let Parse::Complete(k) = payload_parse(rest) {
+                    let vl = varint_len(rest[0]);
+                    assert((rest + t)[0] == rest[0]);
+                    assert((rest + t).subrange(vl as int, k as int) =~= rest.subrange(vl as int, k as int));
+                }
+            }
+        }
+    }
+}
 
 //@canary
 } // verus!
